@@ -437,6 +437,24 @@ def c06_all_types(kind: int, r: int, a: int, role: int) -> bool:
     return ok
 
 
+def c06_kf_template_arg_qualifiers(which: int) -> bool:
+    """
+    Witness replay for known finding C06-template-arg-qualifiers (`*`, `@`, `const &` on a template ARGUMENT of a parameter type).
+    pre: 0 <= which <= 1
+    post: _
+    """
+    which = pick(which, 0, 2)
+    with concrete():
+        arg = ("a::Cls*", "std::shared_ptr<a::Cls>") if which == 0 else ("const a::Cls&", "const a::Cls&")
+        text = ALG_PRELUDE + "namespace top { class K { K(); void doIt(std::vector<%s> x) const; }; }" % arg[0]
+        files, cpp, _w = pipe.matlab(text)
+        body = next((b for n, b in dict(readers.mex_routines(cpp)).items() if "doIt_" in n), "")
+        want = "unwrap_shared_ptr< std::vector<%s> >(in[1]" % arg[1]
+        ok = want in body or _fail(text=text, problems=["routine does not unwrap the declared element type: expected %r in %r" % (want, [l.strip() for l in body.split("\n") if " x = " in l])])
+    reached()
+    return ok
+
+
 def c06_kf_function_enum(which: int) -> bool:
     """
     Witness replay for known finding C06-foreign-scope-enum (free function taking a class-scoped enum).
@@ -466,6 +484,7 @@ def conds(tier):
                 bounds="3 overloads x %d return shapes each%s" % (NR, "" if not q else " (third derived)")),
         xh.Cond(M, "c06_all_types", t(420, 2400), path_timeout=60, kind=sb, examples=["kind=0, r=0, a=43, role=1", "kind=0, r=0, a=3, role=0", "kind=1, r=11, a=35, role=2", "kind=1, r=27, a=43, role=3"],
                 bounds="every in-dialect leaf of the C01 type algebra and %s templated roots over unqualified leaves, as first parameter (%s)" % ("every second (root, leaf) pair of the" if not q else "every eighth (root, leaf) pair of the", "4 roles" if not q else "role derived")),
+        xh.Cond(M, "c06_kf_template_arg_qualifiers", 60, path_timeout=60, kind=sb, bounds="witness of a listed known finding", needs_confirm=False),
         xh.Cond(M, "c06_kf_function_enum", 60, path_timeout=60, kind=sb, bounds="witness of a listed known finding", needs_confirm=False),
         xh.Cond(M, "c06_returns", t(200, 900), path_timeout=60, kind=sb, examples=["role=1, ret=7, n=1"], bounds="3 roles x %d return shapes x 0-1 parameters" % NR),
     ]
